@@ -46,7 +46,9 @@ for d in sorted((VERIF / "seeded").iterdir()):
                 "note": "the v3 goldens of the other targets were not run by the lead (each takes 10-40 min on the loaded "
                         "machine); the author of the change reports which ones it ran in notes.md",
             }
-        mp.write_text(json.dumps(meta, indent=1) + "\n")
+        fresh = json.loads(mp.read_text())  # other fields may have been edited while the tests ran
+        fresh["tests_with_patch"] = meta["tests_with_patch"]
+        mp.write_text(json.dumps(fresh, indent=1) + "\n")
         print(d.name, meta["tests_with_patch"], flush=True)
     finally:
         subprocess.run(["git", "-C", "/repo", "worktree", "remove", "--force", wt], capture_output=True)
